@@ -62,6 +62,18 @@ func historyMenu() []hsym {
 		hsym{"ean8-wrong-check", ref.EAN8("96385071"), nil},
 		hsym{"ean8@ext2", ref.EAN8("96385074"), ext(2)},
 	)
+	// cross-symbology twins: EAN-8 and UPC-E both carry eight digits and verify them by different
+	// rules (UPC-E on its UPC-A expansion). The same eight digits as a valid EAN-8 symbol and as a
+	// UPC-E symbol (whose check digit is then wrong), and the other way round.
+	e8 := "0425261" + fmt.Sprint(ref.Mod10Check("0425261"))
+	if e8 == "04252614" {
+		panic("harness: the EAN-8 and UPC-E check digits of 0425261 coincide; choose another number")
+	}
+	menu = append(menu,
+		hsym{"ean8-twin", ref.EAN8(e8), nil},
+		hsym{"upce-with-the-twin's-digits", ref.UPCE(e8), nil},
+		hsym{"ean8-with-the-upce-digits", ref.EAN8("04252614"), nil},
+	)
 	return menu
 }
 
@@ -96,7 +108,7 @@ func runHistory() {
 			}
 		}
 	}
-	chk.Range(fmt.Sprintf("reader-object histories: 5 readers x {row, image} x ALL sequences of <=%d reads from a %d-symbol menu (plain, valid / wrong-parity 2- and 5-digit add-ons, wrong check digit, other number, other symbologies, blank) on ONE reader object: the last outcome == the outcome of a fresh reader", depth, len(menu)), len(jobs),
+	chk.Range(fmt.Sprintf("reader-object histories: 5 readers x {row, image} x ALL sequences of <=%d reads from a %d-symbol menu (plain, valid / wrong-parity 2- and 5-digit add-ons, wrong check digit, other number, other symbologies, EAN-8 / UPC-E symbols carrying the same eight digits, blank) on ONE reader object: the last outcome == the outcome of a fresh reader", depth, len(menu)), len(jobs),
 		func(i int) string {
 			return fmt.Sprint(jobs[i].reader, " ", jobs[i].path, " first ", menu[jobs[i].first].Name)
 		},
